@@ -75,4 +75,129 @@ example :
     g .finishOrReplaceExisting (some e) (some ⟨3, "t", "run"⟩) = ⟨[⟨9, "t", "new"⟩], []⟩ := by
   decide
 
+/-! ## The choice of the task to claim (`Queue::claim_scheduled_pending_task`)
+
+The closure handed to `fold(None, …)` over the keys of the pending scope is regenerated as
+`KM.Gen.C09.Queue.claim_fold_step` (the code around it – the clock reading, the fold starting from `None`,
+the move to the running scope – is compared verbatim by the translator).  Folding it over the pending
+entries IN ANY ORDER yields a member of the model's `claimChoices` (due, minimal time stamp) and `none`
+exactly when nothing is due: `claim_earliest_first` and `claim_none_iff_nothing_due` (Props/C09.lean) are
+about `claimChoices`; with the theorems below the comparison operators of the Rust closure (`ts > now`,
+`acc_ts < ts`) are tied to them – `>=` instead of `>` (a task due exactly now is not claimed), `>` instead
+of `<` (the LATEST due task is claimed) change the generated definition and this file stops checking. -/
+
+/-- Every pending key is well formed: `split_storage_key` gives its time stamp (the name is not looked at
+by the fold). -/
+def splitEntry (e : Entry) : Option (Nat × Entry) := some (e.ts, e)
+
+/-- The generated fold step, instantiated. -/
+abbrev genStep (now : Nat) : Option (Nat × Entry) → Entry → Option (Nat × Entry) :=
+  KM.Gen.C09.Queue.claim_fold_step splitEntry now
+
+/-- Invariant of the fold: the accumulator is the choice among the entries seen so far. -/
+def FoldInv (now : Nat) (seen : List Entry) : Option (Nat × Entry) → Prop
+  | none => ∀ x ∈ seen, ¬ x.ts ≤ now
+  | some (t, e) => e ∈ seen ∧ t = e.ts ∧ e.ts ≤ now ∧ ∀ x ∈ seen, x.ts ≤ now → e.ts ≤ x.ts
+
+theorem fold_step_inv (now : Nat) (seen : List Entry) (acc : Option (Nat × Entry)) (k : Entry)
+    (h : FoldInv now seen acc) : FoldInv now (seen ++ [k]) (genStep now acc k) := by
+  unfold genStep KM.Gen.C09.Queue.claim_fold_step splitEntry
+  simp only
+  by_cases hk : k.ts > now
+  · simp only [hk, if_true]
+    cases acc with
+    | none =>
+        simp only [FoldInv] at h ⊢
+        intro x hx
+        rcases List.mem_append.mp hx with hx | hx
+        · exact h x hx
+        · simp at hx; subst hx; omega
+    | some p =>
+        obtain ⟨t, e⟩ := p
+        simp only [FoldInv] at h ⊢
+        obtain ⟨h1, h2, h3, h4⟩ := h
+        refine ⟨List.mem_append.mpr (Or.inl h1), h2, h3, ?_⟩
+        intro x hx hd
+        rcases List.mem_append.mp hx with hx | hx
+        · exact h4 x hx hd
+        · simp at hx; subst hx; omega
+  · simp only [hk, if_false]
+    cases acc with
+    | none =>
+        simp only [FoldInv] at h ⊢
+        refine ⟨by simp, trivial, by omega, ?_⟩
+        intro x hx hd
+        rcases List.mem_append.mp hx with hx | hx
+        · exact absurd hd (h x hx)
+        · simp at hx; subst hx; omega
+    | some p =>
+        obtain ⟨t, e⟩ := p
+        simp only [FoldInv] at h
+        obtain ⟨h1, h2, h3, h4⟩ := h
+        subst h2
+        by_cases hlt : e.ts < k.ts
+        · simp only [hlt, if_true, FoldInv]
+          refine ⟨List.mem_append.mpr (Or.inl h1), trivial, h3, ?_⟩
+          intro x hx hd
+          rcases List.mem_append.mp hx with hx | hx
+          · exact h4 x hx hd
+          · simp at hx; subst hx; omega
+        · simp only [hlt, if_false, FoldInv]
+          refine ⟨by simp, trivial, by omega, ?_⟩
+          intro x hx hd
+          rcases List.mem_append.mp hx with hx | hx
+          · have := h4 x hx hd; omega
+          · simp at hx; subst hx; omega
+
+theorem fold_inv (now : Nat) (l : List Entry) :
+    ∀ (seen : List Entry) (acc : Option (Nat × Entry)), FoldInv now seen acc →
+      FoldInv now (seen ++ l) (l.foldl (genStep now) acc) := by
+  induction l with
+  | nil => intro seen acc h; simpa using h
+  | cons k tl ih =>
+      intro seen acc h
+      have := ih (seen ++ [k]) (genStep now acc k) (fold_step_inv now seen acc k h)
+      simpa [List.append_assoc] using this
+
+/-- **gen_claim_fold_chooses_earliest_due.**  Folding the generated step over the pending entries in ANY
+order `l` (a permutation of the pending scope: `list_keys` order is unspecified) from `None`: the result
+is `none` exactly when nothing is due, otherwise an entry of the model's `claimChoices`. -/
+theorem gen_claim_fold_chooses_earliest_due (s : QState) (now : Nat) (l : List Entry)
+    (hl : ∀ e, e ∈ l ↔ e ∈ s.pending) :
+    match l.foldl (genStep now) none with
+    | none => claimChoices s now = []
+    | some (t, e) => e ∈ claimChoices s now ∧ t = e.ts := by
+  have h := fold_inv now l [] none (by simp [FoldInv])
+  simp only [List.nil_append] at h
+  cases hr : l.foldl (genStep now) none with
+  | none =>
+      rw [hr] at h
+      simp only [FoldInv] at h
+      simp only [claimChoices, due]
+      rw [List.filter_eq_nil_iff]
+      intro e he
+      have := (List.mem_filter.mp he).1
+      have hd := (List.mem_filter.mp he).2
+      exact absurd (by simpa using hd) (h e ((hl e).mpr this))
+  | some p =>
+      obtain ⟨t, e⟩ := p
+      rw [hr] at h
+      simp only [FoldInv] at h
+      obtain ⟨h1, h2, h3, h4⟩ := h
+      refine ⟨?_, h2⟩
+      simp only [claimChoices, due, List.mem_filter, List.all_eq_true, decide_eq_true_eq]
+      refine ⟨⟨(hl e).mp h1, h3⟩, ?_⟩
+      intro x hx
+      exact h4 x ((hl x).mpr hx.1) hx.2
+
+/-- The pinned alternatives are NOT what the generated step does: a task due exactly now is claimed
+(`>` not `>=`), of two due tasks the earlier one wins whatever the order (`<` not `>`), and of two equal
+minimal ones the LATER in key order (the model leaves that choice open). -/
+example :
+    (([⟨5, "a", ""⟩] : List Entry).foldl (genStep 5) none).map (·.2.name) = some "a" ∧
+    (([⟨3, "a", ""⟩, ⟨2, "b", ""⟩] : List Entry).foldl (genStep 5) none).map (·.2.name) = some "b" ∧
+    (([⟨2, "b", ""⟩, ⟨3, "a", ""⟩] : List Entry).foldl (genStep 5) none).map (·.2.name) = some "b" ∧
+    (([⟨2, "b", ""⟩, ⟨2, "c", ""⟩] : List Entry).foldl (genStep 5) none).map (·.2.name) = some "c" ∧
+    (([⟨7, "a", ""⟩] : List Entry).foldl (genStep 5) none) = none := by decide
+
 end KM.Props.C09Src
